@@ -546,7 +546,7 @@ def rule_explicit_default_byte(ctx: Ctx, rep: Report) -> None:
     g = ctx.cfg(gh)
     p0 = gh.params()[0]
     z = [c for c in cs if c.op == "==" and c.value == 0 and not c.from_fact]
-    ok = bool(z) and any(str(t).replace(" ", "") == f"len({p0})==65" and pol for t, pol in g.facts_at_ast(z[0].node))
+    ok = bool(z) and any(str(t).replace(" ", "") in (f"len({p0})==65", f"65==len({p0})") and pol for t, pol in g.facts_at_ast(z[0].node))
     rep.ob(rule, "get_hashtype:65_bytes_ending_00", ok, gh.where(), "a 65-byte signature whose hash type byte is 0 is refused" if ok else
            f"no refusal of a zero hash type byte on the 65-byte path (refusals: {[c.show() for c in cs][:5]}): an explicit SIGHASH_DEFAULT is hashed as if it were the 64-byte form")
     rep.floor(rule, 1)
